@@ -2,7 +2,6 @@ package uhppote
 
 import (
 	"fmt"
-	"strconv"
 
 	"github.com/uhppoted/uhppote-core/messages"
 	"github.com/uhppoted/uhppote-core/types"
@@ -67,19 +66,10 @@ func isCardNumberValid(cardNumber uint32, formats ...types.CardFormat) bool {
 }
 
 func isWiegand26(card uint32) bool {
-	s := fmt.Sprintf("%08v", card)
+	facilityCode := card / 100000
+	cardNumber := card % 100000
 
-	if facilityCode, err := strconv.Atoi(s[:3]); err != nil {
-		return false
-	} else if cardNumber, err := strconv.Atoi(s[3:]); err != nil {
-		return false
-	} else if facilityCode < 0 || facilityCode > 255 {
-		return false
-	} else if cardNumber < 0 || cardNumber > 65535 {
-		return false
-	}
-
-	return true
+	return facilityCode <= 255 && cardNumber <= 65535
 }
 
 func isWiegandAny(card uint32) bool {
